@@ -40,7 +40,8 @@ inductive VExp where
   /-- `num/den`; `guards`: quantities the code compares with 0 exactly before dividing (besides `den`);
       `alt`: what the code returns when that guard fires -/
   | quot (num den κn κd : Rat) (sc : Scale) (guards : List Rat) (alt : Option Rat)
-  /-- `num / sqrt(den)` (TrendStrengthIndex): compared on the square, allowance `κn·M` on `num`, `κd·M²` on `den` -/
+  /-- `num / sqrt(den)`, `0` when `den ≤ 0` (TrendStrengthIndex): compared on the square, allowance `κn·M` on `num`,
+      `κd·M²` on `den` -/
   | sqrtQuot (num den κn κd : Rat)
   deriving Repr, Inhabited
 
